@@ -855,3 +855,11 @@ Proof.
   2:{ symmetry. apply N.ltb_ge. rewrite app_length, marshal_length. lia. }
   rewrite Nat2N.id. now apply read_runs_marshal.
 Qed.
+
+Lemma excise_l r s p : run_ok r -> run_ok s -> contains r s ->
+  excise r s = Some (excise_frags r s) /\ inrs p (excise_frags r s) = inr p r && negb (inr p s).
+Proof. intros Hr Hs C. split; [now apply excise_contains|now apply excise_frags_voxels]. Qed.
+
+Lemma add_union_l l l2 : Forall run_ok l -> Forall run_ok l2 ->
+  Forall run_ok (fst (add l l2)) /\ forall p, inrs p (fst (add l l2)) = inrs p l || inrs p l2.
+Proof. intros H H2. exact (add_runs_spec l2 H2 l 0 H). Qed.
